@@ -81,7 +81,8 @@ def main():
         demo_cmd = None
         if ok:
             pkgs = sorted({"./" + os.path.dirname(p) + "/" for p in placed})
-            demo_cmd = "go test -vet=off -count=1 " + " ".join(pkgs)
+            race = "-race " if "-race" in str(meta.get("demo_cmd", "")) else ""
+            demo_cmd = "go test -vet=off -count=1 " + race + " ".join(pkgs)
             rc, out = sh(demo_cmd, cwd=wt)
             rec["demo_with_patch"] = "fails" if rc != 0 else "PASSES"
             if rc == 0:
